@@ -14,6 +14,9 @@ uint64_t gsched_switches(void) { return 0; }
 uint64_t gsched_state_changes(void) { return 0; }
 uint64_t gsched_preemptions(void) { return 0; }
 void gsched_fair_from_now(void) {}
+void gsched_quiet(int) {}
+void gsched_liveness_mark(uint64_t, uint64_t) {}
+void gsched_liveness_clear(void) {}
 int gsched_in_fair_tail(void) { return 0; }
 void* gsched_arena_alloc(size_t bytes) { return calloc(1, bytes ? bytes : 1); }
 void gsched_arena_reset(void) {}
